@@ -137,7 +137,7 @@ func (s Scenario) reachable() []string {
 
 // failedStartKinds: ways in which a start fails before (or, closedListener, right after) the server
 // begins to serve. Afterwards Shutdown must return at once and the same Server value must start.
-var failedStartKinds = []string{"closedUDP", "closedUDP", "closedListener", "nilListeners", "badAddrTCP", "badAddrUDP", "badNet", "portInUseTCP", "portInUseUDP", "tlsNoCert"}
+var failedStartKinds = []string{"closedUDP", "closedUDP", "closedListener", "closedPacketConn", "closedMemListener", "nilListeners", "badAddrTCP", "badAddrUDP", "badNet", "portInUseTCP", "portInUseUDP", "tlsNoCert"}
 
 var transportsMem = []string{"memTCP", "memTCP", "memTCP", "memTLS", "memPacket", "memPacket", "memPacket"}
 var transportsReal = []string{"realUDP", "realTCP"}
@@ -285,6 +285,12 @@ func genScenario(t *rapid.T, transports []string) Scenario {
 				s.Waits = append(s.Waits, memnet.Wait{At: "lis.close", For: "hold-expired", Once: true, TimeoutMs: rapid.SampledFrom([]int{5, 10, 20}).Draw(t, "holdSdMs")})
 			}
 		}
+	}
+	if s.Transport == "memPacket" && rapid.Bool().Draw(t, "slowClose") {
+		// a slow Close: the serve loop's own deferred Close of the PacketConn does not take effect
+		// before Shutdown has returned - whatever Shutdown promises about the socket must then be
+		// Shutdown's own doing
+		s.Waits = append(s.Waits, memnet.Wait{At: "pc.close.enter", For: "shutdown.return(*)", Once: true, TimeoutMs: 30})
 	}
 	if s.spied() {
 		nw := rapid.SampledFrom([]int{0, 0, 1, 1, 2}).Draw(t, "waits")
